@@ -47,7 +47,7 @@ pub fn motif(r: &mut Reader) -> Motif {
             let blockers = (0..r.below(3)).map(|_| (r.below(8), r.u8(), r.bool())).collect();
             Motif::Castle { black, kf, short_sel, long_sel, attackers, blockers }
         }
-        2 => Motif::Ep { black_mover: r.bool(), file: r.below(8), left: r.below(9), right: r.below(9), king_mode: r.below(7), a: r.u8(), b: r.u8(), c: r.u8() },
+        2 => Motif::Ep { black_mover: r.bool(), file: r.below(8), left: r.below(9), right: r.below(9), king_mode: r.below(9), a: r.u8(), b: r.u8(), c: r.u8() },
         3 => {
             let (black, ksq) = (r.bool(), r.below(64));
             let rays = (0..1 + r.below(4))
@@ -136,6 +136,11 @@ pub fn pos_case(r: &mut Reader) -> PosCase {
     if let Start::Built(ing) = &start {
         if matches!(ing.motif, Motif::PreEp { .. }) {
             ops.insert(0, Op::Move { sel: ing.fm_raw.wrapping_mul(40503), bias: 5 });
+        }
+        if let Motif::Ep { king_mode, .. } = &ing.motif {
+            if king_mode % 9 >= 7 || ing.ep_sel & 16 != 0 {
+                ops.insert(0, Op::Move { sel: ing.fm_raw.wrapping_mul(40503), bias: 4 });
+            }
         }
         if matches!(ing.motif, Motif::Battery { .. } | Motif::BatteryStalemate { .. }) {
             ops.insert(0, Op::Null);
